@@ -90,6 +90,7 @@ func main() {
 	genIds := map[string]bool{}
 
 	directed(r)
+	expiringFacts(r, e)
 
 	for h := 0; h < nHist; h++ {
 		g := gen.New(e.BatchSeed()*104729 + int64(h))
@@ -496,6 +497,103 @@ func onlyPropVarUnindexed(pattern map[string]interface{}, want, got []string) bo
 		}
 	}
 	return missing > 0
+}
+
+// expiringFacts: a fact written with ttl (or expires) is stored with an absolute `expires` and without
+// `ttl`; patterns that name `expires` (or `ttl`) find exactly those facts, in both states, before and
+// after a reload.
+func expiringFacts(r *rep.Report, e rep.Env) {
+	n := e.Pick(30, 200)
+	for i := 0; i < n; i++ {
+		g := gen.New(e.BatchSeed()*1299709 + int64(i))
+		type w struct {
+			Id   string                 `json:"id"`
+			Fact map[string]interface{} `json:"fact"`
+		}
+		var hist []w
+		likes := map[string]string{}
+		exp := map[string]bool{}
+		for s, steps := 0, 4+g.Intn(8); s < steps; s++ {
+			id := []string{"a", "b", "c", "d", "e"}[g.Intn(5)]
+			f := map[string]interface{}{"likes": []string{"tacos", "chips", "queso"}[g.Intn(3)]}
+			switch g.Intn(4) {
+			case 0:
+				f["ttl"] = "1h"
+			case 1:
+				f["ttl"] = 3600.0
+			case 2:
+				f["expires"] = 4102444800.0
+			}
+			hist = append(hist, w{id, f})
+			likes[id] = f["likes"].(string)
+			_, t := f["ttl"]
+			_, x := f["expires"]
+			exp[id] = t || x
+		}
+		type q struct {
+			p    map[string]interface{}
+			want []string
+		}
+		var qs []q
+		all := []string{}
+		for id := range exp {
+			if exp[id] {
+				all = append(all, id)
+			}
+		}
+		qs = append(qs, q{map[string]interface{}{"expires": "?when"}, all}, q{map[string]interface{}{"ttl": "?t"}, []string{}})
+		for _, l := range []string{"tacos", "chips", "queso"} {
+			some := []string{}
+			for _, id := range all {
+				if likes[id] == l {
+					some = append(some, id)
+				}
+			}
+			qs = append(qs, q{map[string]interface{}{"expires": "?when", "likes": l}, some})
+		}
+		for _, kind := range drv.Kinds {
+			store := drv.MustMem()
+			loc, err := drv.NewLoc("E", kind, store)
+			if err != nil {
+				continue
+			}
+			ok := true
+			for _, h := range hist {
+				if _, err := loc.AddFact(drv.Ctx(), h.Id, core.Map(ref.CloneMap(h.Fact))); err != nil {
+					r.Violate("", "AddFact failed: "+err.Error(), rep.J{"state": kind, "history": hist})
+					ok = false
+					break
+				}
+			}
+			if !ok {
+				continue
+			}
+			for phase := 0; phase < 2; phase++ {
+				if phase == 1 {
+					if loc, err = drv.NewLoc("E", kind, store); err != nil {
+						r.Violate("", "reload failed: "+err.Error(), rep.J{"state": kind, "history": hist})
+						break
+					}
+				}
+				for _, qu := range qs {
+					srs, err := loc.SearchFacts(drv.Ctx(), core.Map(ref.CloneMap(qu.p)), false)
+					got := []string{}
+					if err == nil {
+						for _, f := range srs.Found {
+							got = append(got, f.Id)
+						}
+					}
+					sort.Strings(got)
+					sort.Strings(qu.want)
+					r.Case(len(qu.want) > 0, fmt.Sprint("expiring", kind, i, phase, ref.Canon(qu.p)))
+					r.Count("expires_pattern_searches", 1)
+					if err != nil || !ref.SameSet(got, qu.want) {
+						r.Violate("", "a search naming `expires` (or `ttl`) does not return exactly the stored facts that carry it", rep.J{"state": kind, "history": hist, "reloaded": phase == 1, "pattern": qu.p, "got_ids": got, "want_ids": qu.want, "error": drv.ErrStr(err)})
+					}
+				}
+			}
+		}
+	}
 }
 
 func directed(r *rep.Report) {
